@@ -1,6 +1,8 @@
 """C15 - flags do not depend on how the same series and times are represented."""
 from __future__ import annotations
 
+import warnings
+
 import numpy as np
 from hypothesis import strategies as st
 
@@ -148,6 +150,33 @@ def check_valid(tc, rec):
         variants.append(("list_dt64+dtype", list(a.astype("datetime64[ns]")), {"dtype": "datetime64[ns]"}))
         variants.append(("masked", np.ma.MaskedArray(np.where(np.isnat(a), np.datetime64(0, "s").astype(a.dtype), a),
                                                      mask=np.isnat(a)), {}))
+        if not miss_ and n and case["lo"] is not None and case["hi"] is not None and not case.get("far_bounds"):
+            # timezone-aware python datetimes (data in one zone, bounds in another), no dtype given
+            import datetime as dtm
+            from zoneinfo import ZoneInfo
+
+            def aware(v, zone):
+                return (dtm.datetime(1970, 1, 1, tzinfo=dtm.timezone.utc) + dtm.timedelta(milliseconds=int(round(float(v) * 1000)))).astimezone(zone)
+            ny, syd = ZoneInfo("America/New_York"), ZoneInfo("Australia/Sydney")
+            aware_variant = ("list_aware_datetimes", [aware(v, ny) for v in case["x"]], [aware(case["lo"], syd), aware(case["hi"], dtm.timezone.utc)])
+    if case["kind"] == "dt" and "aware_variant" in locals():
+        label, data, sp = aware_variant
+        r, err = None, None
+        try:
+            with warnings.catch_warnings():
+                warnings.simplefilter("ignore")
+                r = axds.valid_range_test(data, sp, **kw)
+        except Exception as e:
+            err = e
+        if err is not None:
+            rec.fail(site, f"carrier {label}: raised {type(err).__name__}: {str(err)[:150]}", carrier=label, raised=True,
+                     exc=type(err).__name__, got=f"{type(err).__name__}: {str(err)[:150]}")
+        else:
+            got = flags(rec, site, r, n, carrier=label)
+            if got is not SKIP and got != base:
+                i = next(i for i, (x, y) in enumerate(zip(base, got)) if x != y)
+                rec.fail(site, f"carrier {label}: flags differ from canonical at index {i} ({base[i]} -> {got[i]})",
+                         expected=base, got=got, index=i, carrier=label)
     for label, data, extra in variants:
         for sp in (span, tuple(span) if isinstance(span, list) else list(span)):
             try:
